@@ -44,14 +44,13 @@ def scan_assumptions(text):
         for pat, kind in ASSUME_PATTERNS:
             if re.search(pat, code):
                 # name: next fn name / bracket content
-                ctxt = ' '.join(lines[no - 1:no + 3])
+                ctxt = ' '.join(l.split('//')[0] for l in lines[no - 1:no + 6])
                 m = re.search(r'\[([^\]]+)\]', code) if kind == 'assume_specification' else None
                 if m:
                     name = m.group(1).strip()
                 else:
-                    m = re.search(r'fn\s+(\w+)', ctxt)
-                    m2 = re.search(r'(struct|enum)\s+(\w+)', ctxt)
-                    name = m.group(1) if m else (m2.group(2) if m2 else '?')
+                    m = re.search(r'\b(fn|struct|enum|trait)\s+(\w+)', ctxt)
+                    name = m.group(2) if m else '?'
                 found.append((kind, no, ln.strip(), name))
                 break
     return found
@@ -203,8 +202,16 @@ if __name__ == '__main__':
     ap.add_argument('--rlimit')
     a = ap.parse_args()
     r = run_unit(a.unit, a.work, canary=a.canary, rlimit=a.rlimit)
-    ex = r.pop('extraction', None)
-    st = r.pop('stderr_tail', '')
-    print(json.dumps(r, indent=1)[:6000])
-    if r['status'] != 'ok':
-        print(st[-3000:])
+    print('unit=%s status=%s wall=%.1fs smt=%sms verified=%s errors=%s' % (r['unit'], r['status'], r['wall_s'], r.get('smt_ms'), r.get('verified'), r.get('errors')))
+    if r['reason']:
+        print('reason:', r['reason'])
+    for f in r['functions']:
+        if not f['success'] or f['ms'] > 2000:
+            print('  %-60s %8.0fms rlimit=%s %s' % (f['function'], f['ms'], f['rlimit'], 'ok' if f['success'] else 'FAILED'))
+    for f in r['failed']:
+        print('--- in fn %s (line %s)' % (f['function'], f['line']))
+        print(f['diagnostic'][:2500])
+    if r['status'] == 'undecided':
+        print(r.get('stderr_tail', '')[-3000:])
+    if r.get('extraction', {}).get('unannotated_loops'):
+        print('unannotated loops:', r['extraction']['unannotated_loops'])
